@@ -55,6 +55,8 @@ func checkC05(c *Ctx) {
 	c.Expect("C05-R3", 5)
 	c.Expect("C05-R4", 10)
 	c.Expect("C05-R5", 1)
+	c.Rule("C05-R15", "PollEvent returns every event it takes off the queue: the received value is what is returned, and the receive does not sit in a loop that could drop it and wait for another")
+	c.Expect("C05-R15", 1)
 	c.Assume("Go channels are FIFO; one producer and one consumer per lane preserve order")
 	cfgs := []string{"linux", "wasm"} // the browser callbacks are event producers too
 	if c.Tier == "thorough" {
@@ -84,6 +86,7 @@ func checkC05(c *Ctx) {
 		checkConsumedDelivers(c, p, "C05-R12", nil)
 		checkStopQIsQuit(c, p, "C05-R13", "tScreen")
 		checkAppendedEventsConstructed(c, p, "C05-R14")
+		checkPollReturnsWhatItReceives(c, p, "C05-R15")
 		checkStopQIsQuit(c, p, "C05-R13", "simscreen")
 	}
 }
